@@ -11,6 +11,7 @@ import re
 from . import common as C
 from .wire import export_abi
 
+GENERIC_REPLAY = True   # scenarios are a deterministic function of (tier, seed); see check --replay
 LEVEL = {"C12": "model_checking"}
 
 
